@@ -357,6 +357,148 @@ fn interleaved(seed: u64, rounds: usize, rep: &mut Report) {
     }
 }
 
+type SharedCall = Box<dyn Fn(&mut TraceRng, usize) -> String>;
+
+/// Operator and distribution *values* that live across many calls. `call(rng, mode)`:
+/// mode 0 is the reference input, modes 1.. are other inputs - empty, minimal, failing
+/// part-way, large - handed to the same value in between.
+fn shared_set(fixture: u64) -> Vec<(&'static str, SharedCall)> {
+    use std::rc::Rc;
+    let mut g = Xo::new(fixture);
+    // populations of the common logging individuals (3 cases) ...
+    let pops: Rc<Vec<crate::shapes::Pop>> = Rc::new(vec![
+        gen_population(&mut g, 12, 3),
+        Vec::new(),
+        gen_population(&mut g, 1, 3),
+        gen_population(&mut g, 9, 1), // fewer results than Lexicase(3) / the weighted members look at
+        gen_population(&mut g, 70, 3),
+    ]);
+    // ... and of EcIndividuals over bit vectors; in [3] only the last one is short of results
+    let bit = |g: &mut Xo, n: usize, cases: usize| -> Vec<BitInd> {
+        (0..n).map(|_| EcIndividual::new((0..37).map(|_| g.chance(1, 2)).collect::<Vec<bool>>(), (0..cases).map(|_| g.range(0, 3)).collect())).collect()
+    };
+    let mut short_last = bit(&mut g, 12, 3);
+    if let Some(last) = short_last.last_mut() {
+        *last = EcIndividual::new(last.genome.clone(), last.test_results.results.iter().take(2).copied().collect());
+    }
+    let bits: Rc<Vec<Vec<BitInd>>> = Rc::new(vec![bit(&mut g, 12, 3), Vec::new(), bit(&mut g, 1, 3), short_last, bit(&mut g, 70, 3)]);
+    let genomes: Rc<Vec<Vec<bool>>> = Rc::new([37usize, 0, 1, 64, 200].iter().map(|&n| (0..n).map(|_| g.chance(1, 2)).collect()).collect());
+    let pairs: Rc<Vec<(Vec<bool>, Vec<bool>)>> = Rc::new(
+        [(37usize, 37usize), (0, 0), (1, 1), (37, 12), (128, 128)].iter().map(|&(a, b)| ((0..a).map(|_| g.chance(1, 2)).collect(), (0..b).map(|_| g.chance(1, 2)).collect())).collect(),
+    );
+    let mut out: Vec<(&'static str, SharedCall)> = Vec::new();
+    macro_rules! sel_bits {
+        ($name:literal, $make:expr) => {{
+            let v = $make;
+            let b = bits.clone();
+            out.push(($name, Box::new(move |r: &mut TraceRng, m: usize| format!("{:?}", v.select(&b[m % b.len()], r).map(|i| i.genome.clone()).map_err(|e| e.to_string())))));
+        }};
+    }
+    sel_bits!("Best", Best);
+    sel_bits!("Worst", Worst);
+    sel_bits!("Random", Random);
+    sel_bits!("Tournament::binary", Tournament::binary());
+    sel_bits!("Tournament::of_size<5>", Tournament::of_size::<5>());
+    sel_bits!("Lexicase(3)", Lexicase::new(3));
+    sel_bits!("Lexicase(2)", Lexicase::new(2));
+    for (name, shape, kinds, weights) in [
+        ("weighted chain", Shape::Left(4), vec![LeafKind::Best, LeafKind::Random, LeafKind::Tournament(2), LeafKind::Lexicase(3)], vec![1u32, 2, 3, 4]),
+        ("weighted tree", Shape::Balanced4, vec![LeafKind::Worst, LeafKind::Lexicase(3), LeafKind::Tournament(3), LeafKind::Random], vec![4, 2, 3, 1]),
+        ("DynWeighted", Shape::Dyn(3), vec![LeafKind::Random, LeafKind::Tournament(2), LeafKind::Lexicase(3)], vec![1, 1, 2]),
+    ] {
+        if let Ok(v) = build(shape, &kinds, &weights) {
+            let p = pops.clone();
+            out.push((name, Box::new(move |r: &mut TraceRng, m: usize| {
+                let o = format!("{:?}", v.sel(&p[m % p.len()], r));
+                take_leaf_log();
+                o
+            })));
+        }
+    }
+    {
+        let v = Select::new(Lexicase::new(3)).then(GenomeExtractor).then(Mutate::new(WithOneOverLength));
+        let b = bits.clone();
+        out.push(("pipeline lexicase.extract.mutate", Box::new(move |r: &mut TraceRng, m: usize| format!("{:?}", v.apply(&b[m % b.len()], r).map_err(|e| e.to_string())))));
+        let v = Select::new(Tournament::of_size::<3>()).apply_twice().then_map(GenomeExtractor).then(Recombine::new(UniformXo));
+        let b = bits.clone();
+        out.push(("pipeline tournament-twice.extract.crossover", Box::new(move |r: &mut TraceRng, m: usize| format!("{:?}", v.apply(&b[m % b.len()], r).map_err(|e| e.to_string())))));
+    }
+    macro_rules! mutate_bits {
+        ($name:literal, $make:expr) => {{
+            let v = $make;
+            let gs = genomes.clone();
+            out.push(($name, Box::new(move |r: &mut TraceRng, m: usize| format!("{:?}", v.mutate(Bitstring { bits: gs[m % gs.len()].clone() }, r).map(|c| c.bits).map_err(|e| e.to_string())))));
+        }};
+    }
+    mutate_bits!("WithRate(0.3)", WithRate::new(0.3));
+    mutate_bits!("WithOneOverLength", WithOneOverLength);
+    {
+        let v = Umad::new_with_empty_rate(0.3, 0.6, 0.2, StandardUniform);
+        let gs = genomes.clone();
+        out.push(("Umad", Box::new(move |r: &mut TraceRng, m: usize| format!("{:?}", v.mutate(gs[m % gs.len()].iter().copied().collect::<Vector<bool>>(), r)))));
+    }
+    macro_rules! cross_bits {
+        ($name:literal, $make:expr) => {{
+            let v = $make;
+            let ps = pairs.clone();
+            out.push(($name, Box::new(move |r: &mut TraceRng, m: usize| {
+                let (a, b) = ps[m % ps.len()].clone();
+                format!("{:?}", v.recombine([Bitstring { bits: a }, Bitstring { bits: b }], r).map(|c| c.bits).map_err(|e| e.to_string()))
+            })));
+        }};
+    }
+    cross_bits!("UniformXo", UniformXo);
+    cross_bits!("TwoPointXo", TwoPointXo);
+    {
+        let d = vec![3u8, 1, 4, 1, 5, 9, 2, 6].into_distribution().unwrap();
+        out.push(("OneOfCloning", Box::new(move |r: &mut TraceRng, m: usize| format!("{:?}", (0..[3usize, 0, 1, 64, 9][m % 5]).map(|_| d.sample(r)).collect::<Vec<u8>>()))));
+        let gg = instr_pool().into_distribution().unwrap().into_gene_generator();
+        out.push(("GeneGenerator", Box::new(move |r: &mut TraceRng, m: usize| (0..[6usize, 0, 1, 64, 9][m % 5]).map(|_| { let x: PushGene = gg.sample(r); x.to_string() }).collect::<Vec<_>>().join(" "))));
+        let cg = BoolGenerator::new(0.7).into_collection_generator(70);
+        out.push(("collection generator", Box::new(move |r: &mut TraceRng, m: usize| format!("{:?}", (0..[1usize, 0, 2, 5, 3][m % 5]).map(|_| { let v: Vec<bool> = cg.sample(r); v }).collect::<Vec<_>>()))));
+    }
+    out
+}
+
+/// Long-lived values: A(s, reference input) must answer the same (result and stream position)
+/// before and after any number of other calls on the same value - successful, on empty or
+/// minimal inputs, failing part-way - and the same as a value built afresh.
+fn shared_values(seed: u64, rounds: usize, rep: &mut Report) {
+    let fixture = mix(seed, 0x5e7);
+    let long_lived = shared_set(fixture);
+    let mut g = Xo::derive(seed, "C16-shared", 0);
+    for k in 0..rounds {
+        let fresh = if k % 16 == 0 { Some(shared_set(fixture)) } else { None };
+        for (i, (name, call)) in long_lived.iter().enumerate() {
+            let s1 = g.next();
+            let run = |c: &SharedCall, s: u64, mode: usize| {
+                let mut r = TraceRng::stream(s);
+                let v = catch(|| c(&mut r, mode)).unwrap_or_else(|p| format!("panic: {p}"));
+                (v, r.fingerprint())
+            };
+            let first = run(call, s1, 0);
+            let between: Vec<usize> = (0..1 + g.usize_below(4)).map(|_| g.usize_below(5)).collect();
+            for &m in &between {
+                let _ = run(call, g.next(), m);
+            }
+            let third = run(call, s1, 0);
+            rep.eval();
+            rep.count("shared-value-histories");
+            rep.distinct(mix(fnv_str(name), mix(s1, between.iter().fold(0u64, |a, &m| a * 5 + m as u64))));
+            if first != third {
+                rep.violation(format!("C16/{name}/state-carried-between-calls"), || json!({"operator": name, "seed": s1, "inputs_of_the_calls_in_between": between.iter().map(|m| ["reference", "empty", "minimal", "fails part-way / mismatched", "large"][*m]).collect::<Vec<_>>(), "before": format!("{first:?}"), "after": format!("{third:?}")}));
+            }
+            if let Some(f) = &fresh {
+                let alone = run(&f[i].1, s1, 0);
+                rep.eval();
+                if alone != first {
+                    rep.violation(format!("C16/{name}/state-carried-between-calls"), || json!({"operator": name, "seed": s1, "long_lived_value_answers": format!("{first:?}"), "a_value_built_afresh_answers": format!("{alone:?}"), "calls_the_long_lived_value_has_seen": k * 4}));
+                }
+            }
+        }
+    }
+}
+
 fn permutations(n: usize) -> Vec<Vec<usize>> {
     fn go(cur: &mut Vec<usize>, used: &mut Vec<bool>, out: &mut Vec<Vec<usize>>) {
         if cur.len() == used.len() {
@@ -465,6 +607,7 @@ pub fn run(args: &Args) -> i32 {
             registry_checks(args.seed, seeds, s, &mut rep);
         } else if s < n_reg + 8 {
             interleaved(mix(args.seed, s as u64), rounds / 8, &mut rep);
+            shared_values(mix(args.seed, s as u64), rounds / 400, &mut rep);
         } else {
             push_determinism(mix(args.seed, s as u64), programs / 8, &mut rep);
         }
